@@ -13,6 +13,7 @@ import sympy as sp
 from .facts import AnalysisBroken, strip_targs
 
 MAX_STEPS = 200000
+INT_TYPES = {"int", "unsigned int", "long", "unsigned long", "short", "unsigned short", "long long", "unsigned long long", "size_t", "std::size_t", "char", "unsigned char"}
 
 
 class Thrown(Exception):
@@ -20,6 +21,10 @@ class Thrown(Exception):
         Exception.__init__(self, tt)
         self.tt = tt
         self.where = where
+
+
+class Stop(Exception):
+    """raised by a primitive to end the interpretation at a chosen point"""
 
 
 class _Return(Exception):
@@ -126,6 +131,7 @@ class Interp:
         self.db = db
         self.prims = prims or {}
         self.steps = 0
+        self.top = None          # outermost frame (locals can be inspected after a Stop)
         self.trace = []          # (function, line) of primitive emissions, for reports
 
     # ------------------------------------------------------------------ calls
@@ -136,6 +142,8 @@ class Interp:
             raise AnalysisBroken("summ: %s called with %d arguments" % (fn.qn, len(args)))
         env = {p["d"]: a for p, a in zip(fn.params, args)}
         fr = Frame(self, fn, env, this)
+        if not hasattr(self, "top") or self.top is None:
+            self.top = fr
         try:
             fr.exec(fn.body)
         except _Return as r:
@@ -231,6 +239,15 @@ class Frame:
             if isinstance(c, list):
                 c[ix] = val
                 return
+            if isinstance(c, dict):
+                c[ix] = val
+                return
+        if k == "index":
+            c = self.eval(n["base"])
+            ix = self.eval(n["idx"])
+            if isinstance(c, list) and isinstance(ix, int) and 0 <= ix < len(c):
+                c[ix] = val
+                return
         if k == "un" and n["op"] == "*":
             return self.assign(n["sub"], val)
         if k == "cast":
@@ -243,6 +260,8 @@ class Frame:
         n = self.nodes[i]
         k = n["k"]
         if k == "lit":
+            if n.get("lk") == "float":
+                return sp.Rational(str(n.get("sp") or n["v"]).rstrip("fFlL")) if not isinstance(n["v"], str) else num(n["v"])
             return num(n["v"])
         if k == "ref":
             dk = n["dk"]
@@ -273,7 +292,17 @@ class Frame:
                     raise Thrown("dereference of map::end()", self.fn.loc(i))
                 return o.key if n["n"] == "first" else o.m[o.key]
             self.bad(i, "member of a non-record")
-        if k in ("cast", "defarg"):
+        if k == "cast":
+            v = self.eval(n["sub"])
+            t = (n.get("t") or "").replace("const ", "").strip()
+            if t in INT_TYPES and isinstance(v, sp.Basic) and v.is_number:
+                return int(v)            # truncation toward zero, as the C++ conversion
+            if t in INT_TYPES and isinstance(v, float):
+                return int(v)
+            if t == "bool" and isinstance(v, (int, sp.Basic)) and not isinstance(v, bool):
+                return truthy(v)
+            return v
+        if k == "defarg":
             return self.eval(n["sub"])
         if k == "index":
             c, ix = self.eval(n["base"]), self.eval(n["idx"])
@@ -373,7 +402,9 @@ class Frame:
             if op == "*":
                 return a * b
             if op == "/":
-                if isinstance(a, int) and isinstance(b, int):
+                tn = (self.nodes[i].get("t") or "").replace("const ", "").strip()
+                floating = tn in ("double", "float", "long double") or "complex" in tn
+                if isinstance(a, int) and isinstance(b, int) and not floating:
                     if b == 0:
                         self.bad(i, "integer division by zero")
                     return int(a / b)
@@ -515,6 +546,11 @@ class Frame:
             if cn in ("std::abs", "abs", "std::fabs", "fabs") and len(args) == 1:
                 v = self.eval(args[0])
                 return abs(v) if isinstance(v, (int, float)) else sp.Abs(v)
+            if cn in ("std::ceil", "ceil", "std::floor", "floor") and len(args) == 1:
+                v = sp.sympify(self.eval(args[0]))
+                if not v.is_number:
+                    self.bad(i, "ceil/floor of a symbolic value")
+                return sp.ceiling(v) if cn.endswith("ceil") else sp.floor(v)
             if cn == "std::make_pair" and len(args) == 2:
                 return pair(self.eval(args[0]), self.eval(args[1]))
             if cn in ("std::conj", "conj") and len(args) == 1:
